@@ -318,7 +318,14 @@ def step (st : St) (_n : Nat) (line : String) : St × List Finding :=
         match stored.bind (·.pdrs.find? (·.pdrID = u.id)), afterS.bind (·.pdrs.find? (·.pdrID = u.id)) with
         | some o, some n => (pdrKeys o).any fun k => !(pdrKeys n).contains k
         | _, _ => false
+      -- the re-run marking moves the session QER's ID to the end of the stored QER list of a PDR the request does not carry:
+      -- the store changes, the rule is not re-sent (same call site as the relabelling: MarkSessionQer in the modification handler)
+      let reorder : Bool := out.reply.cause == 1 && (match stored, afterS with
+        | some o, some n => o.pdrs.any fun p => !(req.updatePdrs.any (·.id == p.pdrID)) &&
+            (n.pdrs.any fun q => q.pdrID == p.pdrID && q.qerIDs != p.qerIDs)
+        | _, _ => false)
       let label := s!"mod{parts}" ++ (if sessLevel then " updates-session-level-QER" else "") ++
+        (if reorder then " marking-reorders-stored-PDR" else "") ++
         (if keyChange then " update-PDR-changes-key" else "") ++
         (if relabel then " session-QER-relabelled" else "") ++ (if out.reply.cause = 1 then "" else " rejected")
       let st' := if relabel then { st' with relabelled := req.seid :: st'.relabelled } else st'
